@@ -91,7 +91,7 @@ MUTATIONS = [
     # array_ / object_convert_to_comparable
     ("ac-values-after-8n", F, AC_HEAD, AC_HEAD.replace("4 * length", "8 * length"), 0, KEY, "array_key_step"),
     ("ac-value-not-advanced", F, "        jentry_offset += 4;\n        val_offset += jentry.length as usize;\n    }\n}\n", "        jentry_offset += 4;\n    }\n}\n", 0, KEY, "ka_loop1_step"),
-    ("oc-key-not-advanced", F, "        key_offset += key_jentry.length as usize;\n", "", 0, KEY, "ko_loop2_step"),
+    ("oc-key-not-advanced", F, "        jentry_offset += 4;\n        key_offset += key_jentry.length as usize;\n        val_offset += val_jentry.length as usize;\n", "        jentry_offset += 4;\n        val_offset += val_jentry.length as usize;\n", 0, KEY, "ko_loop2_step"),
     ("oc-value-key-swapped", F, "        scalar_convert_to_comparable(depth, &val_jentry, &value[val_offset..], buf);", "        scalar_convert_to_comparable(depth, &val_jentry, &value[key_offset..], buf);", 0, KEY, "ko_loop2_step"),
     ("oc-keys-after-4n", F, "    let mut key_offset = 8 * length;", "    let mut key_offset = 4 * length;", 0, KEY, "object_key_step"),
     # convert_to_comparable
@@ -109,7 +109,7 @@ RESPELLINGS = [
     ("co-key-offset-commuted", F, "    let mut left_key_offset = 8 * left_length;", "    let mut left_key_offset = left_length * 8;", 0, CMP),
     ("cs-explicit-return", F, "        (FALSE_TAG, FALSE_TAG) => Ok(Ordering::Equal),", "        (FALSE_TAG, FALSE_TAG) => {\n            return Ok(Ordering::Equal);\n        }", 0, CMP),
     ("ac-offset-commuted", F, AC_HEAD, AC_HEAD.replace("4 * length", "length * 4"), 0, KEY),
-    ("oc-key-offset-explicit-sum", F, "        key_offset += key_jentry.length as usize;\n", "        key_offset = key_offset + key_jentry.length as usize;\n", 0, KEY),
+    ("oc-key-offset-commuted", F, "    let mut key_offset = 8 * length;", "    let mut key_offset = length * 8;", 0, KEY),
     ("sc-mask-spelled-hex", F, "                        b[0] ^= 0x80;\n", "                        b[0] ^= 128;\n", 0, KEY),
 ]
 
